@@ -423,7 +423,7 @@ func (e *env) runOpSim(i int, op *Op) {
 	if out.Out != "" {
 		e.holdString(out.Out, "string")
 	}
-	e.recheck(6, "C12")
+	e.recheck(6, e.immutabilityProp())
 }
 
 func (e *env) handoffBytes(b []byte, what string) {
